@@ -357,10 +357,11 @@ V_RunEnd(failed, failnow) ==
 VerdictOf ==
   [ C01 |-> {"final_wrong_buffer", "result_not_best", "save_wrong_buffer", "reported_failure_never_happened",
              "no_final_replay", "final_replay_passes", "final_replay_other_failure", "draws_mislogged",
-             "flaky_report", "persist_mismatch", "report_message", "report_without_failure", "phantom_failure"},
+             "flaky_report", "persist_mismatch", "report_message", "report_without_failure", "phantom_failure",
+             "check_crashed", "report_failfile"},   \* (Check dying of an internal error while it handles a falsification presents no test case at all)
     C02 |-> {"lost_failure", "falsification_lost", "skip_misjudged", "pass_despite_failure", "failure_class"},
     C05 |-> {"accept_not_smaller", "accept_other_site", "accept_grew", "result_larger", "failure_site_changed",
-             "result_not_best", "try_not_smaller", "final_replay_passes", "final_replay_other_failure", "flaky_report"},
+             "result_not_best", "try_not_smaller", "final_replay_passes", "final_replay_other_failure", "flaky_report", "check_crashed"},
     C06 |-> {"ff_not_found", "gen_before_failfiles", "failure_not_saved", "persist_mismatch", "replay_not_first",
              "replay_differs", "save_wrong_buffer", "save_before_capture", "no_failfile_written", "failfile_name", "ff_order",
              "report_failfile", "check_crashed"},
